@@ -58,7 +58,7 @@ def run_batch(rd, seed, batch, mode, nfun, configs, genexe, orcc, libdir, env, p
     def V(sigtail, what, **kw):
         viol.append(("%s|%s" % (prop, sigtail), what, dict(det0, **kw)))
 
-    rc, out, err = sh("%s --seed %d --limit %d --mode %s --aux %s --start %d" % (genexe, seed * 100 + batch, nfun, mode, prefix, batch * nfun if mode == "single" else 0), env=env)
+    rc, out, err = sh("%s --seed %d --limit %d --mode %s --aux %s --start %d" % (genexe, seed * 100 + batch, nfun, mode, prefix, batch * nfun if mode in ("single", "fsingle") else 0), env=env)
     if rc != 0:
         V("harness|orccgen-failed", "orccgen failed: %s" % err[-300:])
         return ev, viol
